@@ -35,6 +35,8 @@ package dns
 //@   ensures countE: len(dns.Extra) <= old(len(dns.Extra))
 //@   ensures droptc: len(dns.Answer) < old(len(dns.Answer)) || len(dns.Ns) < old(len(dns.Ns)) || len(dns.Extra) < old(len(dns.Extra)) ==> dns.Truncated
 //@   ensures keep:   !dns.Truncated ==> len(dns.Answer) == old(len(dns.Answer)) && len(dns.Ns) == old(len(dns.Ns)) && len(dns.Extra) == old(len(dns.Extra))
+//@   assert at "compression := make(map[string]struct{})" optbudget: edns0 != nil ==> size == max(old(size), 512) - callres("Len")
+//@   callsite "Len" whole: asptr(arg0, OPT) == edns0
 //@   exit tc:    dns.Truncated == (old(dns.Truncated) || old(len(dns.Answer)) > numAnswer || old(len(dns.Ns)) > numNS || len(dns.Extra) < old(len(dns.Extra)))
 //@   exit order: (numAnswer < old(len(dns.Answer)) ==> numNS == 0 && numExtra == 0) && (numNS < old(len(dns.Ns)) ==> numExtra == 0)
 //@   exit opt:   edns0 != nil ==> len(dns.Extra) > 0 && asptr(dns.Extra[len(dns.Extra)-1], OPT) == edns0
